@@ -2,6 +2,7 @@ SPECIFICATION Spec
 INVARIANT AssocLaw
 INVARIANT ReflectLaw
 INVARIANT GaussLaw
+INVARIANT AtomsLaw
 INVARIANT Emit
 INVARIANT EmitUnits
 CHECK_DEADLOCK FALSE
